@@ -5,10 +5,10 @@ import os
 import core
 
 PROP = 'C14'
-LEAN_TARGETS = ['MM.Props.C14', 'MM.Audit.C14', 'MM.Driver.Wire']
+LEAN_TARGETS = ['MM.Props.C14', 'MM.Props.ScoreTie', 'MM.Driver.Wire']
 THEOREMS = ['MM.HeapDict.C14_sorted', 'MM.HeapDict.C14_length', 'MM.HeapDict.C14_topk',
             'MM.HeapDict.C14_keys', 'MM.HeapDict.C14_get_pure', 'MM.HeapDict.C14_get_count',
-            'MM.HeapDict.C14_get_prefix', 'MM.HeapDict.C14_get_prefix_idx']
+            'MM.HeapDict.C14_get_prefix', 'MM.HeapDict.C14_get_prefix_idx', 'MM.Search.tie_score_order']
 TRUSTED_BASE = [
     'Lean 4.33.0 kernel; axioms propext, Quot.sound (audited per theorem)',
     'CPython heapq (heappush / heappushpop / nlargest) is abstracted to an ascending list whose head is the heap root',
